@@ -283,7 +283,8 @@ class Registry(Harness):
     def codes(self):
         import passlib.registry as R
 
-        return [R.get_crypt_handler, R.register_crypt_handler, R._PasslibRegistryProxy.__getattr__]
+        return [R.get_crypt_handler, R.register_crypt_handler, R._PasslibRegistryProxy.__getattr__, R.list_crypt_handlers,
+                R._PasslibRegistryProxy.__dir__]
 
     def fresh(self):
         import passlib.handlers.fshp  # noqa: F401  (module stays imported: import is atomic)
@@ -303,6 +304,14 @@ class Registry(Harness):
             return lambda: PH.fshp is F.fshp
         if op == "get_default":
             return lambda: R.get_crypt_handler("fshp", None) is F.fshp
+        if op == "list":
+            # the listing of every known name while another thread registers one: complete, and it does not fail
+            return lambda: (lambda names: ("fshp" in names, "md5_crypt" in names, len(names) == len(set(names)), names == sorted(names)))(R.list_crypt_handlers())
+        if op == "list_loaded":
+            # loaded-only listing: 'fshp' may or may not be in it yet, everything else is stable
+            return lambda: (lambda names: ("md5_crypt" in names or "md5_crypt" not in R._handlers, len(names) == len(set(names)), names == sorted(names)))(R.list_crypt_handlers(loaded_only=True))
+        if op == "dir":
+            return lambda: "fshp" in dir(PH)
         raise KeyError(op)
 
     def post(self, st):
@@ -850,6 +859,10 @@ def harness_specs(quick):
     add("lazy_b64", ("encode", "decode"), b2)
     add("lazy_b64", ("encode", "decode"), 1 if quick else 2, "instruction")
     add("registry", ("get", "attr"), b2)
+    add("registry", ("list", "get"), b2)
+    add("registry", ("list", "attr"), 1, "instruction")
+    add("registry", ("list_loaded", "get"), b2)
+    add("registry", ("dir", "attr"), b2)
     add("registry_import", ("get:ldap_hex_md5", "get:ldap_hex_sha1"), b2)
     add("registry_import", ("attr:roundup_plaintext", "get:roundup_plaintext"), b2)
     add("context_records", ("verify_admin", "needs_update_admin"), b2)
